@@ -89,8 +89,18 @@ func (e *Env) DeliverWith(ctx sdk.Context, txLabel string, h Handler, msgs ...sd
 // transaction (e.g. by a passed governance proposal in an end-blocker), where ctx.TxBytes() is empty.
 func (e *Env) DeliverBytes(ctx sdk.Context, txb []byte, h Handler, msgs ...sdk.Msg) (out Outcome) {
 	if e.Trace != nil {
+		custom := h != nil || txb == nil
+		var signed []byte
+		if e.Trace.Sign && !custom {
+			if b, ok := e.Trace.sign(e, ctx, msgs); ok {
+				txb, signed = b, b
+			} else {
+				custom = true
+			}
+		}
+		label := fmt.Sprintf("%x", sha256.Sum256(txb))[:16]
 		defer func() {
-			e.Trace.Steps = append(e.Trace.Steps, TraceStep{Kind: "tx", Label: fmt.Sprintf("%x", txb), Msgs: msgs, OK: out.OK, Custom: h != nil || txb == nil})
+			e.Trace.Steps = append(e.Trace.Steps, TraceStep{Kind: "tx", Label: label, Msgs: msgs, OK: out.OK, Custom: custom, Bytes: signed})
 		}()
 	}
 	txCtx := ctx.WithTxBytes(txb).
